@@ -120,19 +120,22 @@ def _cond_default(node, attr: str, default_src: str, var: str) -> bool:
 
 def _helpers(tree) -> frozenset:
     """Which of the helpers `_bounds(data, size) -> (start or 0, stop or size)` and
-    `_length(data, size) -> stop - start` exist with exactly that meaning."""
+    `_length(data, size) -> stop - start` exist with exactly that meaning (parameter and local names are free)."""
     found = set()
     fns = {n.name: n for n in tree.body if isinstance(n, ast.FunctionDef)}
     fb = fns.get("_bounds")
     if fb is not None:
-        if [a.arg for a in fb.args.args] != ["data", "size"] or fb.args.defaults or fb.args.kwonlyargs:
+        if len(fb.args.args) != 2 or fb.args.defaults or fb.args.kwonlyargs or fb.args.vararg or fb.args.kwarg:
             fail(fb, "_bounds signature")
+        data, size = (a.arg for a in fb.args.args)
         vals = {}
-        body = body_no_doc(fb)
+        body = [st for st in body_no_doc(fb) if not norm.is_logging(st)]
         for st in body[:-1]:
-            if isinstance(st, ast.AnnAssign) and isinstance(st.target, ast.Name) and st.value is not None:
+            if isinstance(st, ast.AnnAssign) and isinstance(st.target, ast.Name) and st.value is not None \
+                    and st.target.id not in vals and st.target.id not in (data, size):
                 vals[st.target.id] = st.value
-            elif isinstance(st, ast.Assign) and len(st.targets) == 1 and isinstance(st.targets[0], ast.Name):
+            elif isinstance(st, ast.Assign) and len(st.targets) == 1 and isinstance(st.targets[0], ast.Name) \
+                    and st.targets[0].id not in vals and st.targets[0].id not in (data, size):
                 vals[st.targets[0].id] = st.value
             else:
                 fail(st, "_bounds: unsupported statement")
@@ -140,18 +143,26 @@ def _helpers(tree) -> frozenset:
         if not (isinstance(ret, ast.Return) and isinstance(ret.value, ast.Tuple) and len(ret.value.elts) == 2):
             fail(fb, "_bounds must return (start, stop)")
         r0, r1 = (vals.get(e.id, e) if isinstance(e, ast.Name) else e for e in ret.value.elts)
-        if not (_cond_default(r0, "start", "0", "data") and _cond_default(r1, "stop", "size", "data")):
+        if not (_cond_default(r0, "start", "0", data) and _cond_default(r1, "stop", size, data)):
             fail(fb, "_bounds must return (0 if data.start is None else data.start, size if data.stop is None else data.stop)")
         found.add("_bounds")
     fl = fns.get("_length")
     if fl is not None:
-        if "_bounds" not in found or [a.arg for a in fl.args.args] != ["data", "size"] or fl.args.defaults:
+        if "_bounds" not in found or len(fl.args.args) != 2 or fl.args.defaults or fl.args.kwonlyargs or fl.args.vararg \
+                or fl.args.kwarg:
             fail(fl, "_length signature")
-        body = body_no_doc(fl)
-        ok = (len(body) == 2 and isinstance(body[0], ast.Assign) and ast.unparse(body[0]) == "start, stop = _bounds(data, size)"
-              and isinstance(body[1], ast.Return) and body[1].value is not None and ast.unparse(body[1].value) == "stop - start")
+        data, size = (a.arg for a in fl.args.args)
+        body = [st for st in body_no_doc(fl) if not norm.is_logging(st)]
+        call = f"_bounds({data}, {size})"
+        ok = False
+        if len(body) == 2 and isinstance(body[0], ast.Assign) and len(body[0].targets) == 1 \
+                and isinstance(body[0].targets[0], ast.Tuple) and len(body[0].targets[0].elts) == 2 \
+                and all(isinstance(e, ast.Name) for e in body[0].targets[0].elts) and ast.unparse(body[0].value) == call \
+                and isinstance(body[1], ast.Return) and body[1].value is not None:
+            a, b = (e.id for e in body[0].targets[0].elts)
+            ok = a != b and ast.unparse(body[1].value) == f"{b} - {a}"
         ok = ok or (len(body) == 1 and isinstance(body[0], ast.Return) and body[0].value is not None
-                    and ast.unparse(body[0].value) == "_bounds(data, size)[1] - _bounds(data, size)[0]")
+                    and ast.unparse(body[0].value) == f"{call}[1] - {call}[0]")
         if not ok:
             fail(fl, "_length must return stop - start of _bounds(data, size)")
         found.add("_length")
